@@ -643,6 +643,8 @@ def merge(results, run):
     """Fold worker results into a Run; returns totals."""
     tot = Counter()
     for status, res in results:
+        if status == "skipped":
+            continue
         if status != "ok":
             run.report({"signature": {"kind": "worker-exception"}, "what": f"harness worker failed: {res}",
                         "case": {}})
